@@ -63,8 +63,23 @@ def solver_band(law, obs, loads, want):
     tol + rtol*|x| with tol = rtol = 1e-4 (defaults used by Binned), so stresses agree to 2*(1e-4 + 1e-4*|s|);
     strains are a closed form of (stress, load): the band is the strain change over that stress band."""
     want = np.asarray(want, float)
+
+    def stress_band(st, secondary):
+        st = np.abs(np.asarray(st, float))
+        band = 2e-4 + 2e-4 * st
+        if type(law).__name__ == 'SeegerBeste':
+            # Seeger-Beste in the (nearly) elastic regime: eq. 2.8-42 is degenerate there and the secant solver returns
+            # values up to 1 % off, differently for every call pattern -- the registered C06 findings
+            # sb-near-elastic-root / sb-near-elastic-inverse (class: plastic strain share <= 1 %).  That noise belongs to
+            # the wrapped law, not to the binning, so two evaluations may differ by it.
+            sa = st / (2.0 if secondary else 1.0)
+            pl = np.power(sa / law._K, 1.0 / law._n)
+            share = pl / np.maximum(sa / law._E + pl, 1e-300)
+            band = np.where(share <= 1e-2, np.maximum(band, 1e-2 * st), band)
+        return band
+
     if 'stress' in obs:
-        return 2e-4 + 2e-4 * np.abs(want)
+        return stress_band(want, 'secondary' in obs)
     x = pd.Series(np.asarray(loads, float))
     if obs == 'strain':
         s = pd.Series(np.asarray(law.stress(x), float))
@@ -72,7 +87,7 @@ def solver_band(law, obs, loads, want):
     else:
         s = pd.Series(np.asarray(law.stress_secondary_branch(x), float))
         f = law.strain_secondary_branch
-    d = 2e-4 + 2e-4 * s.abs()
+    d = pd.Series(stress_band(s, obs != 'strain'))
     mid = np.asarray(f(s, x), float)
     band = np.maximum(np.abs(np.asarray(f(s + d, x), float) - mid), np.abs(np.asarray(f(s - d, x), float) - mid))
     return band + 1e-12 + 1e-9 * np.abs(want)
